@@ -5,6 +5,7 @@ import Drivers.Containers
 import Drivers.Geom
 import Drivers.Search
 import Drivers.Matrix
+import Drivers.Comm
 
 /-! `refdrv <driver> [args]` : dispatch to a line-protocol driver. One match arm per driver, on one line. -/
 
@@ -15,6 +16,7 @@ def main (args : List String) : IO UInt32 := do
   | "geom" :: rest => Drivers.Geom.run rest
   | "search" :: rest => Drivers.Search.run rest
   | "matrix" :: rest => Drivers.Matrix.run rest
+  | "comm" :: rest => Drivers.Comm.run rest
   | _ =>
     IO.eprintln s!"refdrv: unknown driver {args}"
     return 2
